@@ -18,7 +18,7 @@ type Program struct {
 	Repo  string
 	Pkgs  []*packages.Package
 	Prog  *ssa.Program
-	SPkgs map[string]*ssa.Package // by import path
+	SPkgs map[string]*ssa.Package  // by import path
 	Funcs map[string]*ssa.Function // by key (see funcKey)
 }
 
